@@ -74,9 +74,11 @@ def xcheck(c, mod, rep, prop):
         return None
     if c.via is None and c.native is None:
         return None
-    clauses = dict(c.post)
-    if c.frame:
+    clauses = {k: v for k, v in c.post.items() if prop in c.props_of(k)}
+    if c.frame and prop in c.props_of("modifies-nothing"):
         clauses["modifies-nothing"] = "True"
+    if not clauses:
+        return None
     try:
         wit, n, errs = native.falsify(c, mod, rep.label, clauses, limit=(120 if tier == "quick" else None),
                                       seed=int(os.environ.get("VERIF_SEED", "0") or 0), stop_after=2)
